@@ -12,6 +12,7 @@ import (
 	"fmt"
 	"math/big"
 	"net"
+	"net/http/httptest"
 	"regexp"
 	"strconv"
 	"strings"
@@ -148,6 +149,10 @@ type PoolWorld struct {
 	settleFail bool
 	burstSeq   int64
 	during     []J  // credits booked to wallets while the next settlement is in progress (scripted on the Withdraw operation)
+	httpSrv    *jsonrpc2.HTTPServer // the same registrations behind the HTTP front end (as server.go serves POST requests)
+	httpd      *httptest.Server
+	settleGate chan struct{} // when set, settlements wait here (and say so on settleIn) until it is closed
+	settleIn   chan struct{}
 	settleOnce bool // the next settlement fails, later ones succeed (real-clock wallet bursts only; cleared when the burst ends)
 	lastPay    *big.Int
 
@@ -213,7 +218,15 @@ func (w *World) newPool(op J) error {
 		pw.settleOnce = false
 		during := pw.during
 		pw.during = nil
+		gate, in := pw.settleGate, pw.settleIn
 		pw.mu.Unlock()
+		if gate != nil {
+			select {
+			case in <- struct{}{}:
+			default:
+			}
+			<-gate
+		}
 		// the settlement takes its time: meanwhile the wallets keep earning
 		for _, d := range during {
 			var err error
@@ -257,8 +270,78 @@ func (w *World) newPool(op J) error {
 	if err := pw.server.Register("pool_", pw.dash); err != nil {
 		return err
 	}
+	pw.httpSrv = &jsonrpc2.HTTPServer{}
+	if err := pw.httpSrv.Server.Register("vipnode_", p, "connect", "disconnect", "ping", "update", "peer", "client", "host"); err != nil {
+		return err
+	}
+	if err := pw.httpSrv.Server.Register("pool_", pay); err != nil {
+		return err
+	}
 	w.pool = pw
 	return nil
+}
+
+// abandonedWithdrawal: a wallet's withdrawal arrives over HTTP, and its client goes away while the settlement is in
+// progress; the wallet's next withdrawal arrives (over a connection) before that settlement has finished.  Returns the
+// two results in the order of reqs.
+func (pw *PoolWorld) abandonedWithdrawal(reqs []J) ([]interface{}, error) {
+	w := pw.w
+	if pw.httpd == nil {
+		pw.httpd = httptest.NewServer(pw.httpSrv)
+	}
+	gate, in := make(chan struct{}), make(chan struct{}, 4)
+	pw.mu.Lock()
+	pw.settleGate, pw.settleIn = gate, in
+	pw.mu.Unlock()
+	results := make([]interface{}, len(reqs))
+	// first request: over HTTP, abandoned by its client once the settlement has started
+	args := pw.signedArgs(reqs[0], "pool_withdraw", true, nil, nil)
+	svc := &jsonrpc2.HTTPService{Endpoint: pw.httpd.URL}
+	ctx, cancel := context.WithCancel(context.Background())
+	firstDone := make(chan error, 1)
+	go func() {
+		var out interface{}
+		firstDone <- svc.Call(ctx, &out, "pool_withdraw", args...)
+	}()
+	entered := false
+	select {
+	case <-in:
+		entered = true
+	case err := <-firstDone: // refused before any settlement (below the minimum, ...)
+		firstDone <- err
+	case <-time.After(5 * time.Second):
+	}
+	cancel() // the client hangs up
+	time.Sleep(30 * time.Millisecond)
+	// second request of the same wallet while the first settlement is still in progress
+	secondDone := make(chan J, 1)
+	go func() {
+		reqs[1]["inburst"] = true
+		r, _ := w.poolOp(reqs[1])
+		secondDone <- r
+	}()
+	time.Sleep(30 * time.Millisecond)
+	close(gate)
+	pw.mu.Lock()
+	pw.settleGate, pw.settleIn = nil, nil
+	pw.mu.Unlock()
+	err := <-firstDone
+	if err != nil {
+		results[0] = pw.classify(err)
+	} else {
+		results[0] = okRes(-1)
+	}
+	select {
+	case r := <-secondDone:
+		results[1] = r
+	case <-time.After(20 * time.Second):
+		results[1] = J{"ok": false, "err": "other: no reply", "val": []interface{}{}}
+	}
+	// the abandoned request is still being carried out by the pool: let it finish
+	if entered {
+		time.Sleep(50 * time.Millisecond)
+	}
+	return results, nil
 }
 
 func (pw *PoolWorld) rebind(s store.Store) {
@@ -538,6 +621,13 @@ func (w *World) poolOp(op J) (J, error) {
 					reqs = append(reqs, m)
 				}
 			}
+		}
+		if boolean(op, "abandon") && len(reqs) == 2 && !fakeClock {
+			rs, err := pw.abandonedWithdrawal(reqs)
+			if err != nil {
+				return nil, err
+			}
+			return okRes(rs), nil
 		}
 		results := make([]interface{}, len(reqs))
 		errs := make([]error, len(reqs))
